@@ -36,6 +36,18 @@ template <typename F> static std::string with_dtype(const Args& a, F f) {
             return c08::with_init<int>(a, [&](auto init) {                                                                \
                 return eager ? c08::emit(na::NAME(arr, axis, nm::None, init, keep)) : c08::emit(view::NAME(arr, axis, nm::None, init, keep)); }); }); \
     }
+// the shorter overloads of sum / prod: (a, axis, dtype, initial) and (a, axis)
+// (view::prod(a, axis) is not instantiated: its unqualified inner call `prod(a,axis,None,None)` is ambiguous with
+//  array::prod through ADL once array/prod.hpp is visible — a compile-time usability defect, no run-time behaviour)
+#define SHORT_ROUTINE(FN, NAME, TWO)                                                                                           \
+    static std::string FN(const iarr_t& arr, const Args& a, const std::string& api) {                                     \
+        if (c08::keepdims_of(a)) throw bad_args("keepdims");                                                              \
+        return c08::with_axis(a, [&](const auto& axis) {                                                                  \
+            if (api == "view2") { if (has(a, "init") && !is_none(a, "init")) throw bad_args("init"); return TWO; }              \
+            return c08::with_init<int>(a, [&](auto init) { return c08::emit(view::NAME(arr, axis, nm::None, init)); }); }); \
+    }
+SHORT_ROUTINE(s_sum, sum, c08::emit(view::sum(arr, axis)))
+SHORT_ROUTINE(s_prod, prod, std::string("unknown-op"))
 REDUCE_ROUTINE(r_sum, sum)
 REDUCE_ROUTINE(r_prod, prod)
 REDUCE_ROUTINE(r_amax, amax)
@@ -56,6 +68,11 @@ std::string handle(const std::string& op, const Args& a) {
     const std::string& f = get(a, "op");
     std::string api = get(a, "api");
     bool eager = api == "array";
+    if (op == "reduce" && (api == "view4" || api == "view2")) {
+        if (f == "add") return s_sum(arr, a, api);
+        if (f == "mul") return s_prod(arr, a, api);
+        return "unknown-op";
+    }
     if (api != "array" && api != "view") throw bad_args("api");
     if (op == "reduce") {
         if (f == "add") return r_sum(arr, a, eager);
